@@ -222,6 +222,38 @@ def random_shape(rng):
         return None
 
 
+def small_function(rng):
+    """a 16..64 byte function whose first instructions hold several short branches leaving the moved prefix, so that the
+    widened copy of the prefix can reach or exceed the size of the whole function; int3 padded (at least one)"""
+    a = Asm().label('entry')
+    for _ in range(rng.below(3)):
+        a.raw(rng.choice([bytes.fromhex('31c0'), bytes.fromhex('ffc0'), NOP, bytes.fromhex('4885c0')]))
+    nbr = 1 + rng.below(6)
+    for _ in range(nbr):
+        opc = rng.choice([0x74, 0x76, 0x7f, 0xeb, 0x74, 0x76, 0x74, 0x76, 0x75, 0xe3] if rng.chance(1, 6) else [0x74, 0x76, 0x7f, 0x74, 0x76])
+        if rng.chance(1, 8):
+            a.brabs(bytes([opc]), rng.choice([0x50, 0x7f, -0x60]), 1)
+        else:
+            a.br(bytes([opc]), rng.choice(['mid', 'end', 'mid']), 1)
+    fillers = [bytes.fromhex('4881bc2410000000') + le32(0), bytes.fromhex('48c7442408') + le32(7), bytes.fromhex('b8') + le32(1),
+               bytes.fromhex('488b05') + le32(0x40), bytes.fromhex('803d') + le32(0x30) + b'\x00', NOP * 3]
+    for _ in range(1 + rng.below(3)):
+        a.raw(rng.choice(fillers))
+    a.label('mid')
+    for _ in range(rng.below(3)):
+        a.raw(rng.choice([bytes.fromhex('ffc0'), bytes.fromhex('0305') + le32(18), NOP]))
+    a.label('end').raw(RET)
+    try:
+        code = a.build()
+    except (ValueError, KeyError):
+        return None
+    pad = 16 - len(code) % 16
+    return code + INT3 * pad
+
+
+SEED_C15_4 = bytes.fromhex('31c0ffc074127610740e760c4881bc241000000000000000030512000000c3cc')   # the shape of seeded regression c15-4
+
+
 def zoo_tramps(rng, base, size):
     t = [base - 0x3000, base + 0x4000, base + 0x10000000, base - 0x20000000, base + size + 16 + rng.below(64), base - 32 - rng.below(96)]
     t.append(base + (rng.below(2 * REACH) - REACH))
@@ -258,6 +290,15 @@ def gen_requests(tier, rng):
     meta.append({'kind': 'fns', 'lane': 'out-of-reach'})
     reqs.append(f'c03.tramp {rng.below(3)} {3 if tier == "quick" else 1} 1000000')
     meta.append({'kind': 'tramp', 'lane': 'valid'})
+    smalls = [SEED_C15_4]
+    for k in range(400 if tier == 'quick' else 6000):
+        f = small_function(rng)
+        if f and len(f) <= 96:
+            smalls.append(f)
+    for f in smalls:
+        for oo, to in ((0, 1024), (2048, 512)):
+            reqs.append(f'c03.small {oo} {to} {rng.choice([24, 48, 64, 200, 900, 900])} {f.hex()}')
+            meta.append({'kind': 'small', 'lane': 'valid', 'req': reqs[-1]})
     shapes = zoo_shapes()
     nrand = 1500 if tier == 'quick' else 40000
     for k in range(nrand):
@@ -323,7 +364,9 @@ def classify_unfaithful(op, r):
 
 EXEC_ZOO = {  # name -> has a stack check (morestack path exists)
     'S1': False, 'SetX': False, 'CmpX': False, 'S2': True, 'S3': True, 'Leaf': False, 'Load': False, 'Big': True, 'Printer': True,
-    'G': False, 'Fib': True, 'Sq': False, 'Deep': True, 'Mixed': True, 'Tiny': False}
+    'G': False, 'Fib': True, 'Sq': False, 'Deep': True, 'Mixed': True, 'Tiny': False,
+    'TwinLeafG': False, 'TripleLeafGLoad': False, 'TwinS2S3': True, 'TwinSqCube': False, 'TwinDblSq': True,
+    'RemockSq': False, 'RemockDbl': True, 'RemockSameBuilderCube': False}
 
 
 def build_exec():
@@ -354,7 +397,7 @@ def exec_oracle(name, obs):
         return (None if obs.endswith('clean=true') else ('apply failed but the function no longer behaves as before', None))
     if not obs.startswith('applied'):
         return f'calling the origin placeholder: {obs}', None
-    kv = dict(p.split('=') for p in obs.split()[1:])
+    kv = dict(p.split('=', 1) for p in obs.split()[1:] if '=' in p)
     if kv['wrong'] != '0' or kv['cbzero'] != '0' or kv['restored'] != 'true':
         return f'wrong result / callback not run / not restored: {obs}', None
     if kv['cbtwice'] != '0':
@@ -400,22 +443,30 @@ def run(tier):
         proof['failed'].append(('goomdrv', 'driver does not build: ' + derr[-500:]))
         proof['ok'] = False
 
-    stats = {'cases': len(cases), 'evaluations': 0, 'fns': 0, 'zoo': 0, 'tramp': 0, 'faithful': 0, 'failed-clean': 0, 'skip': 0,
+    stats = {'cases': len(cases), 'evaluations': 0, 'fns': 0, 'zoo': 0, 'tramp': 0, 'small': 0, 'jumpback': {}, 'faithful': 0, 'failed-clean': 0, 'skip': 0,
              'widened': 0, 'results': {}, 'verdict_classes': {}}
-    bad, diffs = [], []
+    bad, diffs, jbad = [], [], []
     nontrivial = set()
     for k, (ri, op, res, cols) in enumerate(cases):
         m = meta[ri]
         stats[m['kind']] += 1
-        if m['kind'] == 'tramp':
+        if m['kind'] in ('tramp', 'small'):
             stats['evaluations'] += 1
+            jb = cols[2] if len(cols) > 2 else 'n/a'
+            if m['kind'] == 'small' and res == 'ok' and jb == 'jumps-back':
+                fsz = sum(int(x.split(':')[0]) for x in op.split()[4:])
+                if (cols[0].endswith('..-1') is False) and int(cols[0].split('..')[1]) + 1 - 5 >= fsz:
+                    stats['small_copy_reaches_function_size'] = stats.get('small_copy_reaches_function_size', 0) + 1
+            stats['jumpback'][m['kind'] + ':' + jb] = stats['jumpback'].get(m['kind'] + ':' + jb, 0) + 1
+            if jb in ('missing', 'jumps-elsewhere', 'prefix-differs', 'written-although-relocation-fails'):
+                jbad.append((k, op, res, jb, m))
             if model is not None:
                 why = tramp_check(op, res, cols, model[k])
                 if why:
                     diffs.append((k, op, res + ' ' + cols[0], model[k], why))
                 elif res == 'ok':
                     nontrivial.add(('tramp', model[k]))
-            stats['results']['tramp:' + res] = stats['results'].get('tramp:' + res, 0) + 1
+            stats['results'][m['kind'] + ':' + res] = stats['results'].get(m['kind'] + ':' + res, 0) + 1
             continue
         rs = res.split(' | ')
         vs = cols[0].split(' | ')
@@ -451,6 +502,11 @@ def run(tier):
         out.violation(f'relocated copy is not faithful ({v}) for {m.get("name", "a function of the test binary")}' + (f' [{label}]' if label else ''),
                       {'kind': 'impl-oracle', 'ops': [op], 'observed': r, 'verdict': v, 'looks_like': label,
                        'how': 'python3 check.py C03 --replay <this file>'})
+    for k, op, res, jb, m in jbad[:2]:
+        out.violation(f'fixOriginFuncToTrampoline: after the relocated instructions the placeholder holds no jump back to origin+n although '
+                      f'only part of the function was moved ({jb})' if jb in ('missing', 'jumps-elsewhere') else f'fixOriginFuncToTrampoline: the placeholder does not start with the relocated instructions (as the real fixRelativeAddr yields them) followed by a jump back ({jb})',
+                      {'kind': 'jump-back', 'ops': [op], 'reqs': [m.get('req') or 'c03.small 0 1024 900 ' + ''.join(x.split(':')[4] for x in op.split()[4:])],
+                       'observed': res, 'verdict': jb, 'how': 'python3 check.py C03 --replay <this file>'})
     # executed layer: real functions mocked through the public API, origin placeholder called at many stack depths
     xbin = build_exec()
     maxd, step = (400, 1) if tier == 'quick' else (2000, 1)
@@ -465,9 +521,9 @@ def run(tier):
             out.violation(f'executed layer, {name}: {why}', {'kind': 'exec', 'exec': [name, maxd, step], 'observed': obs,
                                                             'how': 'python3 check.py C03 --replay <this file>'}, key=key)
     stats['exec'] = {n: o for n, o in xres}
-    stats['evaluations'] += sum(int(dict(p.split('=') for p in o.split()[1:]).get('calls', 1)) if o and o.startswith('applied') else 1 for _, o in xres)
+    stats['evaluations'] += sum(int(dict(p.split('=', 1) for p in o.split()[1:] if '=' in p).get('calls', 1)) if o and o.startswith('applied') else 1 for _, o in xres)
     # 2. correspondence / proofs
-    if not bad:
+    if not bad and not jbad:
         if diffs:
             k, op, a, b, why = diffs[0]
             out.violation(f'model and implementation disagree ({why})', {'kind': 'correspondence', 'ops': [op], 'impl': a, 'model': b,
@@ -503,6 +559,16 @@ def replay(body):
         w = exec_oracle(n, obs)
         print(f'c03.exec {name} {maxd} {step}\n  impl  : {obs}\n  oracle: {w[0] if w else "ok"}')
         return 1 if w else 0
+    if body.get('kind') == 'jump-back':
+        cases = run_requests(build_probe(), body['reqs'], tag='c03-replay')
+        model, _ = run_model([c[1] for c in cases], tag='c03-replay')
+        rc = 0
+        for k, (ri, op, res, cols) in enumerate(cases):
+            why = tramp_check(op, res, cols, model[k]) if model else None
+            print(f'{op[:300]}\n  impl      : {res} {cols[0]}\n  placeholder: {cols[1][:160]}\n  model     : {model[k][:160] if model else None}\n  jump back : {cols[2]}  model-vs-impl: {why or "agree"}')
+            if cols[2] in ('missing', 'jumps-elsewhere', 'prefix-differs', 'written-although-relocation-fails') or why:
+                rc = 1
+        return rc
     ops = body.get('ops', [])
     rc = 0
     binary = build_probe()
